@@ -19,12 +19,13 @@
    `own` and `log` are ghost fields (never read by the step function's decisions).
    Definitions only. *)
 From TX Require Export Base.Threads.
-From Coq Require Export NArith.
+From Coq Require Export NArith ZArith.
 Local Open Scope N_scope.
 
 Definition name := list N.          (* byte string *)
 Definition id := N.                 (* the N of "hdm_N" *)
-Definition client := N.
+Definition client := Z.             (* int64 client id as it reaches the repository: 0 / negative = no real client *)
+Bind Scope Z_scope with client.
 
 Fixpoint name_eqb (a b : name) : bool :=
   match a, b with
@@ -71,6 +72,7 @@ Inductive res :=
 | RUpdated
 | RRouted (src : N) (h : name) (i : id) (c : client) (t : N)    (* src 1 repository, 2 registry, 3 cloud control; h = the Host looked up *)
 | RReset
+| RCleaned (n : N)                          (* CleanupExpiredMappings: number of mappings reported as cleaned *)
 | RErr (code : N).
 
 (* ---- ghost events ---- *)
@@ -94,12 +96,14 @@ Record shared := {
   idx : name -> option id;               (* tunnox:http_domain:index:<full domain> *)
   recs : id -> option mrec;              (* tunnox:http_domain:mapping:<id> *)
   lists : client -> list id;             (* tunnox:http_domain:client:<client> *)
+  glist : list id;                       (* tunnox:http_domain:mappings:list (auxiliary index read by the expiry cleanup) *)
   rguard : id -> bool;                    (* tunnox:http_domain:removing:<id> *)
   own : id -> option (client * name);    (* ghost: who drew this id, for which name *)
   log : list ev }.                       (* ghost: newest first *)
 
 Definition upd_name {A} (m : name -> A) (k : name) (v : A) : name -> A := fun x => if name_eqb x k then v else m x.
 Definition upd_n {A} (m : N -> A) (k : N) (v : A) : N -> A := fun x => if N.eqb x k then v else m x.
+Definition upd_z {A} (m : Z -> A) (k : Z) (v : A) : Z -> A := fun x => if Z.eqb x k then v else m x.
 
 (* ---- scripts ---- *)
 Inductive idref := Mine (k : nat) | Abs (i : id).
@@ -108,9 +112,10 @@ Inductive op :=
 | ODelete (r : idref)
 | OUpdate (k : nat) (st : status) (exp : N) (tgt : N)
 | OLookup (host : name) (now : N)
+| OCleanup (now : N)                      (* CleanupExpiredMappings: an internal deleter acting with each expired mapping's own client id *)
 | OResetCounter.                          (* environment: the counter key disappears (24h TTL of memory.Storage.IncrBy, restart of a cache-only counter) *)
 
-Inductive rmkind := KRoll | KDel.
+Inductive rmkind := KRoll | KDel | KClean (rest : list (id * client)) (cnt : N).
 Inductive rmstage := RmGuard | RmGetIdx | RmDelIdx | RmDelRec | RmRelease.
 
 Inductive pcT :=
@@ -120,14 +125,17 @@ Inductive pcT :=
 | PCSetNX (i : id) (n : name) (tgt : N)
 | PCSetRec (i : id) (n : name) (tgt : N)
 | PCAppend (i : id) (n : name)
-| PCRm (k : rmkind) (i : id) (n : name) (st : rmstage) (err : option N)
+| PCRm (k : rmkind) (who : client) (i : id) (n : name) (st : rmstage) (err : option N)   (* who = the client id DeleteMapping was called with *)
 | PCRbRec (i : id) (n : name)                          (* pinned rollback: Delete record *)
 | PCRbIdx (i : id) (n : name)                          (* pinned rollback: Delete index (unconditional) *)
 | PCDIdx (i : id) (n : name)                           (* pinned DeleteMapping: Delete index (unconditional) *)
 | PCDRec (i : id)
 | PCDList (i : id)
 | PCUSet (i : id) (n : name) (st : status) (exp : N) (tgt : N)
-| PCLRec (h : name) (n : name) (i : id) (now : N).
+| PCLRec (h : name) (n : name) (i : id) (now : N)
+| PCClScan (now : N) (todo : list id) (acc : list (id * client))      (* ListAllMappings: GetMapping of the next listed id *)
+| PCClDGet (dels : list (id * client)) (cnt : N)                      (* DeleteMapping(id, snapshot's client): Get record *)
+| PCClDList (c : client) (i : id) (rest : list (id * client)) (cnt : N).
 
 Record thr := {
   cl : client;
@@ -148,6 +156,7 @@ Inductive act :=
 | AWrite (i : id) (r : mrec)
 | AAppend (c : client) (i : id)
 | ARemove (c : client) (i : id)
+| AGRemove (i : id)                            (* RemoveFromList on the global list only *)
 | ATake (i : id)
 | ADrop (i : id)
 | AUnidx (n : name) (i : id) (c : client)
@@ -159,44 +168,47 @@ Definition exec (a : act) (s : shared) : shared :=
   match a with
   | ANone => s
   | AIncr c n =>
-      {| next := next s + 1; cexists := true; cttl := (if cexists s then cttl s else true); idx := idx s; recs := recs s; lists := lists s; rguard := rguard s;
+      {| next := next s + 1; cexists := true; cttl := (if cexists s then cttl s else true); glist := glist s; idx := idx s; recs := recs s; lists := lists s; rguard := rguard s;
          own := upd_n (own s) (next s + 1) (Some (c, n)); log := log s |}
   | ASetNext v c n =>
-      {| next := v; cexists := true; cttl := true; idx := idx s; recs := recs s; lists := lists s; rguard := rguard s;
+      {| next := v; cexists := true; cttl := true; glist := glist s; idx := idx s; recs := recs s; lists := lists s; rguard := rguard s;
          own := upd_n (own s) v (Some (c, n)); log := log s |}
   | AReset =>
       (* the clock passes every deadline of the counter key: it vanishes only if it has one *)
       if cexists s && cttl s
-      then {| next := 0; cexists := false; cttl := false; idx := idx s; recs := recs s; lists := lists s; rguard := rguard s;
+      then {| next := 0; cexists := false; cttl := false; glist := glist s; idx := idx s; recs := recs s; lists := lists s; rguard := rguard s;
               own := own s; log := log s |}
       else s
   | AEnsure =>
       if cexists s then s
-      else {| next := next s; cexists := true; cttl := false; idx := idx s; recs := recs s; lists := lists s; rguard := rguard s;
+      else {| next := next s; cexists := true; cttl := false; glist := glist s; idx := idx s; recs := recs s; lists := lists s; rguard := rguard s;
               own := own s; log := log s |}
   | AClaim n i c =>
-      {| next := next s; cexists := cexists s; cttl := cttl s; idx := upd_name (idx s) n (Some i); recs := recs s; lists := lists s; rguard := rguard s;
+      {| next := next s; cexists := cexists s; cttl := cttl s; glist := glist s; idx := upd_name (idx s) n (Some i); recs := recs s; lists := lists s; rguard := rguard s;
          own := own s; log := EvClaim n i c :: log s |}
   | AWrite i r =>
-      {| next := next s; cexists := cexists s; cttl := cttl s; idx := idx s; recs := upd_n (recs s) i (Some r); lists := lists s; rguard := rguard s;
+      {| next := next s; cexists := cexists s; cttl := cttl s; glist := glist s; idx := idx s; recs := upd_n (recs s) i (Some r); lists := lists s; rguard := rguard s;
          own := own s; log := EvWrite i (r_client r) (r_target r) :: log s |}
   | AAppend c i =>
-      {| next := next s; cexists := cexists s; cttl := cttl s; idx := idx s; recs := recs s; lists := upd_n (lists s) c (lists s c ++ [i]); rguard := rguard s;
+      {| next := next s; cexists := cexists s; cttl := cttl s; glist := glist s ++ [i]; idx := idx s; recs := recs s; lists := upd_z (lists s) c (lists s c ++ [i]); rguard := rguard s;
          own := own s; log := log s |}
   | ARemove c i =>
-      {| next := next s; cexists := cexists s; cttl := cttl s; idx := idx s; recs := recs s; lists := upd_n (lists s) c (remove_id i (lists s c)); rguard := rguard s;
+      {| next := next s; cexists := cexists s; cttl := cttl s; glist := remove_id i (glist s); idx := idx s; recs := recs s; lists := upd_z (lists s) c (remove_id i (lists s c)); rguard := rguard s;
          own := own s; log := log s |}
+  | AGRemove i =>
+      {| next := next s; cexists := cexists s; cttl := cttl s; glist := remove_id i (glist s); idx := idx s; recs := recs s; lists := lists s;
+         rguard := rguard s; own := own s; log := log s |}
   | ATake i =>
-      {| next := next s; cexists := cexists s; cttl := cttl s; idx := idx s; recs := recs s; lists := lists s; rguard := upd_n (rguard s) i true;
+      {| next := next s; cexists := cexists s; cttl := cttl s; glist := glist s; idx := idx s; recs := recs s; lists := lists s; rguard := upd_n (rguard s) i true;
          own := own s; log := log s |}
   | ADrop i =>
-      {| next := next s; cexists := cexists s; cttl := cttl s; idx := idx s; recs := recs s; lists := lists s; rguard := upd_n (rguard s) i false;
+      {| next := next s; cexists := cexists s; cttl := cttl s; glist := glist s; idx := idx s; recs := recs s; lists := lists s; rguard := upd_n (rguard s) i false;
          own := own s; log := log s |}
   | AUnidx n i c =>
-      {| next := next s; cexists := cexists s; cttl := cttl s; idx := upd_name (idx s) n None; recs := recs s; lists := lists s; rguard := rguard s;
+      {| next := next s; cexists := cexists s; cttl := cttl s; glist := glist s; idx := upd_name (idx s) n None; recs := recs s; lists := lists s; rguard := rguard s;
          own := own s; log := EvRelease n i c :: log s |}
   | ADelRec i =>
-      {| next := next s; cexists := cexists s; cttl := cttl s; idx := idx s; recs := upd_n (recs s) i None; lists := lists s; rguard := rguard s;
+      {| next := next s; cexists := cexists s; cttl := cttl s; glist := glist s; idx := idx s; recs := upd_n (recs s) i None; lists := lists s; rguard := rguard s;
          own := own s; log := log s |}
   end.
 
@@ -240,24 +252,32 @@ Section D.
 
   (* HTTPDomainMapping.Validate on what CreateMapping / UpdateMapping build *)
   Definition valid_create (c : client) (sub : name) (tgt : N) : bool :=
-    negb (N.eqb c 0) && negb (match sub with [] => true | _ => false end) && negb (N.eqb tgt 0).
+    Z.ltb 0 c && negb (match sub with [] => true | _ => false end) && negb (N.eqb tgt 0).
 
   Definition after_incr (t : thr) (fs : list bool) (i : id) (sub base : name) (tgt : N) : thr :=
     if valid_create (cl t) sub tgt then goto t fs (PCSetNX i (full_domain sub base) tgt)
     else finish t fs (RErr EValidation).
 
   (* where a removal ends: rollbacks always report the storage error of the create; DeleteMapping reports its own *)
-  Definition rm_end (t : thr) (fs : list bool) (k : rmkind) (i : id) (err : option N) : thr :=
+  (* CleanupExpiredMappings: next mapping to delete, or the end of the run *)
+  Definition cl_del (t : thr) (fs : list bool) (dels : list (id * client)) (cnt : N) : thr :=
+    match dels with [] => finish t fs (RCleaned cnt) | _ => goto t fs (PCClDGet dels cnt) end.
+  Definition cl_scan_next (t : thr) (fs : list bool) (now : N) (todo : list id) (acc : list (id * client)) : thr :=
+    match todo with [] => cl_del t fs (rev acc) 0 | _ => goto t fs (PCClScan now todo acc) end.
+
+  Definition rm_end (t : thr) (fs : list bool) (k : rmkind) (who : client) (i : id) (err : option N) : thr :=
     match k, err with
     | KRoll, _ => finish t fs (RErr EStorage)
     | KDel, Some e => finish t fs (RErr e)
     | KDel, None => goto t fs (PCDList i)
+    | KClean rest cnt, Some _ => cl_del t fs rest cnt                  (* the error is swallowed, the mapping is not counted *)
+    | KClean rest cnt, None => goto t fs (PCClDList who i rest cnt)
     end.
 
   Definition rollback_after_setrec (t : thr) (fs : list bool) (i : id) (n : name) : thr :=
-    if dfix then goto t fs (PCRm KRoll i n RmGuard None) else goto t fs (PCRbIdx i n).
+    if dfix then goto t fs (PCRm KRoll (cl t) i n RmGuard None) else goto t fs (PCRbIdx i n).
   Definition rollback_after_append (t : thr) (fs : list bool) (i : id) (n : name) : thr :=
-    if dfix then goto t fs (PCRm KRoll i n RmGuard None) else goto t fs (PCRbRec i n).
+    if dfix then goto t fs (PCRm KRoll (cl t) i n RmGuard None) else goto t fs (PCRbRec i n).
 
   (* CounterStore.Incr *)
   Definition incr_step (t : thr) (fs : list bool) (f : bool) (s : shared) (sub base : name) (tgt : N) : thr * act :=
@@ -286,8 +306,8 @@ Section D.
             else match recs s i with
                  | None => (finish t fs RDeleted, ANone)                         (* already gone: success *)
                  | Some m =>
-                     if negb (N.eqb (r_client m) (cl t)) then (finish t fs (RErr EForbidden), ANone)
-                     else if dfix then (goto t fs (PCRm KDel i (r_name m) RmGuard None), ANone)
+                     if negb (Z.eqb (r_client m) (cl t)) then (finish t fs (RErr EForbidden), ANone)
+                     else if dfix then (goto t fs (PCRm KDel (cl t) i (r_name m) RmGuard None), ANone)
                      else (goto t fs (PCDIdx i (r_name m)), ANone)
                  end
         | OUpdate k st exp tgt :: _ =>
@@ -296,7 +316,7 @@ Section D.
             else match recs s i with
                  | None => (finish t fs (RErr ENotFound), ANone)
                  | Some m =>
-                     if negb (name_eqb (r_name m) n && N.eqb (r_client m) (cl t)) then (finish t fs (RErr EInvalidReq), ANone)
+                     if negb (name_eqb (r_name m) n && Z.eqb (r_client m) (cl t)) then (finish t fs (RErr EInvalidReq), ANone)
                      else if N.eqb tgt 0 then (finish t fs (RErr EValidation), ANone)
                      else (goto t fs (PCUSet i n st exp tgt), ANone)
                  end
@@ -307,6 +327,10 @@ Section D.
                  | None => (finish t fs (fallback h n now), ANone)
                  | Some i => (goto t fs (PCLRec h n i now), ANone)
                  end
+        | OCleanup now :: _ =>
+            (* ListAllMappings: GetList of the global list *)
+            if f then (finish t fs (RErr EStorage), ANone)
+            else (cl_scan_next t fs now (glist s) [], ANone)
         | OResetCounter :: _ => (finish t fs RReset, AReset)
         end
     | PCIncr sub base tgt => incr_step t fs f s sub base tgt
@@ -328,27 +352,27 @@ Section D.
         if f then (rollback_after_append t fs i n, ANone)
         else (finish_created t fs i n, AAppend (cl t) i)
     (* ---- removeMappingKeys (repaired code) ---- *)
-    | PCRm k i n RmGuard _ =>
-        if f then (rm_end t fs k i (Some EStorage), ANone)
-        else if rguard s i then (rm_end t fs k i (Some EConflict), ANone)
-        else (goto t fs (PCRm k i n RmGetIdx None), ATake i)
-    | PCRm k i n RmGetIdx _ =>
-        if f then (goto t fs (PCRm k i n RmRelease (Some EStorage)), ANone)
+    | PCRm k who i n RmGuard _ =>
+        if f then (rm_end t fs k who i (Some EStorage), ANone)
+        else if rguard s i then (rm_end t fs k who i (Some EConflict), ANone)
+        else (goto t fs (PCRm k who i n RmGetIdx None), ATake i)
+    | PCRm k who i n RmGetIdx _ =>
+        if f then (goto t fs (PCRm k who i n RmRelease (Some EStorage)), ANone)
         else match idx s n with
-             | Some j => if N.eqb j i then (goto t fs (PCRm k i n RmDelIdx None), ANone)
-                         else (goto t fs (PCRm k i n RmDelRec None), ANone)
-             | None => (goto t fs (PCRm k i n RmDelRec None), ANone)
+             | Some j => if N.eqb j i then (goto t fs (PCRm k who i n RmDelIdx None), ANone)
+                         else (goto t fs (PCRm k who i n RmDelRec None), ANone)
+             | None => (goto t fs (PCRm k who i n RmDelRec None), ANone)
              end
-    | PCRm k i n RmDelIdx _ =>
-        if f then (goto t fs (PCRm k i n RmRelease (Some EStorage)), ANone)
-        else (goto t fs (PCRm k i n RmDelRec None), AUnidx n i (cl t))
-    | PCRm k i n RmDelRec _ =>
-        if f then (goto t fs (PCRm k i n RmRelease (Some EStorage)), ANone)
-        else (goto t fs (PCRm k i n RmRelease None), ADelRec i)
-    | PCRm k i n RmRelease err =>
+    | PCRm k who i n RmDelIdx _ =>
+        if f then (goto t fs (PCRm k who i n RmRelease (Some EStorage)), ANone)
+        else (goto t fs (PCRm k who i n RmDelRec None), AUnidx n i who)
+    | PCRm k who i n RmDelRec _ =>
+        if f then (goto t fs (PCRm k who i n RmRelease (Some EStorage)), ANone)
+        else (goto t fs (PCRm k who i n RmRelease None), ADelRec i)
+    | PCRm k who i n RmRelease err =>
         (* deferred Delete of the rguard; its error is ignored (the rguard then stays until its TTL) *)
-        if f then (rm_end t fs k i err, ANone)
-        else (rm_end t fs k i err, ADrop i)
+        if f then (rm_end t fs k who i err, ANone)
+        else (rm_end t fs k who i err, ADrop i)
     (* ---- pinned code ---- *)
     | PCRbRec i n =>
         if f then (goto t fs (PCRbIdx i n), ANone) else (goto t fs (PCRbIdx i n), ADelRec i)
@@ -360,7 +384,7 @@ Section D.
         if f then (finish t fs (RErr EStorage), ANone) else (goto t fs (PCDList i), ADelRec i)
     | PCDList i =>
         (* RemoveFromList; an error is ignored *)
-        if f then (finish t fs RDeleted, ANone) else (finish t fs RDeleted, ARemove (cl t) i)
+        if f then (finish t fs RDeleted, AGRemove i) else (finish t fs RDeleted, ARemove (cl t) i)
     | PCUSet i n st exp tgt =>
         if f then (finish t fs (RErr EStorage), ANone)
         else (finish t fs RUpdated,
@@ -374,6 +398,31 @@ Section D.
                  else if is_expired m now then (finish t fs (RErr EForbidden), ANone)
                  else (finish t fs (RErr EUnavailable), ANone)
              end
+    (* ---- CleanupExpiredMappings ---- *)
+    | PCClScan now todo acc =>
+        match todo with
+        | [] => (cl_del t fs (rev acc) 0, ANone)
+        | i :: rest =>
+            if f then (cl_scan_next t fs now rest acc, ANone)                         (* other errors: skipped *)
+            else match recs s i with
+                 | None => (cl_scan_next t fs now rest acc, AGRemove i)               (* stale list entry: dropped *)
+                 | Some m => (cl_scan_next t fs now rest (if is_expired m now then (i, r_client m) :: acc else acc), ANone)
+                 end
+        end
+    | PCClDGet dels cnt =>
+        match dels with
+        | [] => (finish t fs (RCleaned cnt), ANone)
+        | (i, c) :: rest =>
+            if f then (cl_del t fs rest cnt, ANone)
+            else match recs s i with
+                 | None => (cl_del t fs rest (cnt + 1), ANone)                        (* already gone: counted as cleaned *)
+                 | Some m =>
+                     if negb (Z.eqb (r_client m) c) then (cl_del t fs rest cnt, ANone)
+                     else (goto t fs (PCRm (KClean rest cnt) c i (r_name m) RmGuard None), ANone)   (* repaired removal path only *)
+                 end
+        end
+    | PCClDList c i rest cnt =>
+        if f then (cl_del t fs rest (cnt + 1), AGRemove i) else (cl_del t fs rest (cnt + 1), ARemove c i)
     end.
 
   Definition dstep (t : thr) (s : shared) : thr * shared :=
@@ -398,7 +447,7 @@ Section D.
 End D.
 
 Definition empty_store : shared :=
-  {| next := 0; cexists := false; cttl := false; idx := fun _ => None; recs := fun _ => None; lists := fun _ => []; rguard := fun _ => false;
+  {| next := 0; cexists := false; cttl := false; glist := []; idx := fun _ => None; recs := fun _ => None; lists := fun _ => []; rguard := fun _ => false;
      own := fun _ => None; log := [] |}.
 Definition init_thr (c : client) (o : list op) (f : list bool) : thr :=
   {| cl := c; ops := o; faults := f; pc := Idle; held := []; out := [] |}.
@@ -406,8 +455,8 @@ Definition init_thr (c : client) (o : list op) (f : list bool) : thr :=
 (* ids whose removal guard a thread holds *)
 Definition guards_of (t : thr) : list id :=
   match pc t with
-  | PCRm _ i _ RmGuard _ => []
-  | PCRm _ i _ _ _ => [i]
+  | PCRm _ _ i _ RmGuard _ => []
+  | PCRm _ _ i _ _ _ => [i]
   | _ => []
   end.
 Definition all_guards (ls : list thr) : list id := flat_map guards_of ls.
